@@ -208,7 +208,7 @@ PROPS['C11'] = dict(
                 'custom names, mapped-key set construction in the parser, the Linux event loop use of MAPPED_KEYS.'),
     technique='contract-based: Kani full-domain harnesses (complete) + Verus contracts on extracted output filter + generated discriminant VC',
     design_ref='DESIGN.md section 4, C11',
-    explanation='from_u16/as_u16/From impls round-trip for all 65536 codes; known-code set pinned to 0..=748 and 767; transmutes construct no invalid value for 0..=767; discriminant lists equal 0..=767; output filter contract.',
+    explanation='from_u16/as_u16/From impls round-trip for all 65536 codes; known-code set pinned to 0..=748 and 767; transmutes construct no invalid value for 0..=767; discriminant lists equal 0..=767; E3: sixteen keys that the code refers to BY NAME on both sides (the eight modifiers, KeyCode::No / KEY_UNKNOWN, backspace, space, enter, escape, tab, 1, 0) have the same number in both enums (numbers read from the enum bodies each run); output filter contract.',
     verus=[dict(unit='keys')],
     kani=[
         H('parser', 'keys', 'c11_k_codes', kind='complete', covers='all 65536 u16 codes', timeout=1500, functions=[K + 'mod.rs OsCode::from_u16', K + 'mod.rs OsCode::as_u16', K + 'linux.rs OsCode::from_u16_linux', K + 'linux.rs OsCode::as_u16_linux', K + 'mappings.rs From<KeyCode> for OsCode', K + 'mappings.rs From<OsCode> for KeyCode', K + 'mod.rs From<OsCode> for u16/u32/i32/usize']),
